@@ -36,6 +36,7 @@ _SOURCES = [
     (c19, "c19_message_queue", "MessageQueue with non-zero delivery latency, DLQ"),
     (c19, "c19_assignment", "ConsumerGroup join/leave/commit over EventLog"),
     (c19, "c19_topic_fanout", "Topic fan-out with non-zero delivery latency"),
+    (c19, "c19_outbox_relay", "OutboxRelay poll loop with non-zero relay latency"),
     (c08, "c08_pipeline", "Server = Queue + QueueDriver + worker, bounded queue, forwarder"),
     (c10, "c10_entity", "RateLimitedEntity drain loop with token/leaky/fixed-window policies"),
     (c02, "c02_script", "generator processes, futures, any_of/all_of"),
